@@ -79,7 +79,7 @@ def tieRowsOk (c : Cls) : Bool :=
 
 /-- THE TIE: for every attribute-wise class family, the kinds by which the model's `__eq__` and `__hash__` read each
     attribute and the builder of each hashed component are exactly what the current source denotes. -/
-theorem tie_rows : ∀ c ∈ tabular, tieRowsOk c = true := by decide
+theorem tie_rows : ∀ c ∈ tabular, tieRowsOk c = true := by decide +kernel
 
 def noExtraOk (c : Cls) : Bool :=
   let names := (row c).attrs.map (·.name) ++ classConstants c
@@ -89,10 +89,10 @@ def noExtraOk (c : Cls) : Bool :=
     && (s.hashes.map (·.attr)).eraseDups.length == s.hashes.length
 
 /-- the source compares / hashes no attribute beyond the model's rows (and the class constants), none twice -/
-theorem tie_no_extra_attributes : ∀ c ∈ tabular, noExtraOk c = true := by decide
+theorem tie_no_extra_attributes : ∀ c ∈ tabular, noExtraOk c = true := by decide +kernel
 
 /-- the `isinstance(other, ·)` guard of every `__eq__` names the class itself (the model: same class family) -/
-theorem tie_guards : ∀ c ∈ tabular, (Gen.C12.src c).guard = c.name := by decide
+theorem tie_guards : ∀ c ∈ tabular, (Gen.C12.src c).guard = c.name := by decide +kernel
 
 /-- `rounded_array_key` rounds to the number of decimals the model's `r10` stands for -/
 theorem tie_decimals : Gen.C12.roundedKeyDecimals = modelDecimals := by decide
@@ -107,7 +107,7 @@ def hashedComparedOk (c : Cls) : Bool :=
   (Gen.C12.src c).hashes.all (fun h => (lookupEq (Gen.C12.src c) h.attr).isSome)
 
 /-- every attribute that `__hash__` reads is read by `__eq__` -/
-theorem src_hashed_compared : ∀ c ∈ tabular, hashedComparedOk c = true := by decide
+theorem src_hashed_compared : ∀ c ∈ tabular, hashedComparedOk c = true := by decide +kernel
 
 def coarserOk (c : Cls) : Bool :=
   (hrow c).attrs.all (fun h => match derived c h.name h.ty with
@@ -120,14 +120,14 @@ def coarserOk (c : Cls) : Bool :=
 /-- … and the kind under which it is hashed is coarser than the kind under which it is compared (order-insensitive
     compare ⇒ order-insensitive hash; rounded compare ⇒ hash of the rounded value; None-as-empty only where compared
     so): whatever is equal for `__eq__` yields the same hashed component. -/
-theorem src_hash_coarser : ∀ c ∈ tabular, coarserOk c = true := by decide
+theorem src_hash_coarser : ∀ c ∈ tabular, coarserOk c = true := by decide +kernel
 
 def ctorParamsOk (cr : CtorRow) : Bool :=
   !(tabular.contains cr.family) || cr.params.all (fun pa => (lookupEq (Gen.C12.src cr.family) pa.2).isSome)
 
 /-- every parameter of every public constructor (`ctors`, compared with `inspect.signature` on every run) is stored in
     an attribute that the SOURCE of `__eq__` reads -/
-theorem src_ctor_params_compared : ∀ cr ∈ ctors, ctorParamsOk cr = true := by decide
+theorem src_ctor_params_compared : ∀ cr ∈ ctors, ctorParamsOk cr = true := by decide +kernel
 
 /-- the same for the content attributes filled through `add_*` -/
 theorem src_content_attrs_compared :
@@ -174,6 +174,10 @@ theorem tie_state_subclasses :
 theorem tie_eq_hash_pairs :
     Gen.C12.eqHashPairs.all (fun p => p.2.1 && p.2.2) = true
     ∧ Cls.all.all (fun c => Gen.C12.eqHashPairs.contains (c.name, true, true)) = true := by decide
+
+/-- wherever `__eq__` / `__hash__` read an attribute under both names (the field `self._a` and the getter `other.a`), the
+    getter returns that field: "the attribute `a`" of the extracted table is ONE value -/
+theorem tie_getters : Gen.C12.mixedAccessGetters.all (fun p => p.2.2) = true := by decide
 
 /-! ### what fails: the denotations reject the classic mistakes -/
 
